@@ -271,11 +271,19 @@ pub fn gen_timeline(rng: &mut Rng, k: &Knobs) -> TlSpec {
     } else if rng.chance(0.00004) {
         // a baked curve: more frames for one property than fit in 16 bits
         Some(rng.range(65_600, 70_000) as usize)
+    } else if rng.chance(0.0003) {
+        // a sampled curve of a few thousand frames (between the two sizes above)
+        Some(*rng.pick(&[1000usize, 2047, 2048, 2049, 2400, 4096, 5000]))
     } else {
         None
     };
     let positions = match many {
-        Some(n) => (0..n).map(|i| (i as f32 + if i == 0 { 0.0 } else { 0.5 }) / n as f32).collect(),
+        Some(n) => {
+            // sample i of n at (i + offset) / n: offset 0 is the natural layout of a sampled loop
+            // (first sample at 0 %, last one at (n-1)/n, nothing at 100 %)
+            let offset = if n >= 1000 { *rng.pick(&[0.5f32, 0.0, 0.0, 0.25]) } else { 0.5 };
+            (0..n).map(|i| (i as f32 + if i == 0 { 0.0 } else { offset }) / n as f32).collect()
+        }
         None => gen_positions(rng, k, n_kfs),
     };
     // Per-timeline subset of properties that may appear (so some properties stay un-animated).
